@@ -33,9 +33,9 @@ V3Trees == {TreeOf(c) : c \in V3TreeCodes}
 Axis == (-NegAxes)..AxisHi
 Dims == {1, 2, 3}
 
-\* the bounded domain of the property: rank 1..3 leaves, rank 1..3 values (a family of rank 3), extents in 1..3
+\* the bounded domain of the property: rank 0..3 leaves, rank 1..3 values (a family of rank 3), extents in 1..3
 ShapesOfRank(r) == [1..r -> Dims]
-LeafShapes == ShapesOfRank(1) \cup ShapesOfRank(2) \cup ShapesOfRank(3)
+LeafShapes == ShapesOfRank(0) \cup ShapesOfRank(1) \cup ShapesOfRank(2) \cup ShapesOfRank(3)    \* rank 0: a scalar leaf
 ASSUME /\ \A t \in Trees : Len(t) \in {1, 2} /\ \A i \in 1..Len(t) : t[i] \in LeafShapes
        /\ \A t \in Trees : Len(t) = 2 => Len(t[1]) # Len(t[2])
        /\ ValueShapes \subseteq ShapesOfRank(1) \cup ShapesOfRank(2)
